@@ -285,190 +285,233 @@ func c40Step(state, input, output interface{}) (bool, interface{}) {
 	}
 }
 
-// ---- two-point model: what the service does on the unchanged tree. A change
-// request is evaluated at one point (which makes its world visible and, for
-// a change computed from a read, reads the value) and applied at a later
-// point to the world object obtained at evaluation; if that world was
-// deleted in between, the change lands on the orphaned object and is lost.
-// Each change request is two operations (eval, apply) over the same
-// interval, ordered by the model through a pending table.
+// ---- step model: what the service does on the unchanged tree, at the
+// granularity of its critical sections. Used only to classify a history that
+// no serial order explains (known findings C40/service/stale-apply and
+// C40/service/add-world-not-atomic): a history this model explains is one of
+// those; a history it does not explain either is a VIOLATION.
+//
+// Every Evaluate request is a sequence of steps inside its call interval:
+//
+//	begin     FindOrCreateWorld(root): the world becomes visible; the request
+//	          holds on to that world object (an "incarnation" of the id) from
+//	          here on, even if the id is deleted or re-created meanwhile
+//	read      get-string: the value the held incarnation has now
+//	eval      (change computed from a read) the value read from the held incarnation
+//	apply     the change is applied to the held incarnation (under the write lock)
+//	aw-delete add-world-with-change: DeleteWorld(target)
+//	aw-create add-world-with-change: FindOrCreateWorld(target), held from here on
+//	aw-apply  add-world-with-change: the change is applied to that incarnation
+//
+// DeleteWorld and ListWorlds are single steps. State: for every world id the
+// registered incarnation (0 = none) and the tags of every incarnation ever
+// created (an orphaned one can still be read and written by its holders).
 
 type c40In2 struct {
-	Phase string // "", "eval", "apply"
+	Phase string
 	Req   int
 	In    c40In
 }
 
-// state2 = state1 + "#" + generations + "#" + pending entries
 type c40State2 struct {
-	c40State
-	gen     [3]int
-	pending map[int]string // req -> "world,gen,value"
+	cur     [3]int                       // registered incarnation per world id, 0 = none
+	next    [3]int                       // incarnations created so far per world id
+	tags    map[string]map[string]string // "w.g" -> (f<feat>.<key> -> value)
+	pending map[int]string               // req -> "step,w,g,value" (what the request holds)
 }
 
 func c40Parse2(s string) c40State2 {
-	parts := strings.SplitN(s, "\x01", 3)
+	st := c40State2{tags: map[string]map[string]string{}, pending: map[int]string{}}
+	parts := strings.Split(s, "\x01")
 	for len(parts) < 3 {
 		parts = append(parts, "")
 	}
-	st := c40State2{c40State: c40Parse(parts[0]), pending: map[int]string{}}
+	if parts[0] != "" {
+		fmt.Sscanf(parts[0], "%d,%d,%d,%d,%d,%d", &st.cur[0], &st.cur[1], &st.cur[2], &st.next[0], &st.next[1], &st.next[2])
+	}
 	if parts[1] != "" {
-		fmt.Sscanf(parts[1], "%d,%d,%d", &st.gen[0], &st.gen[1], &st.gen[2])
+		for _, inc := range strings.Split(parts[1], "|") {
+			k := strings.SplitN(inc, "{", 2)
+			m := map[string]string{}
+			if body := strings.TrimSuffix(k[1], "}"); body != "" {
+				for _, kv := range strings.Split(body, ",") {
+					p := strings.SplitN(kv, "=", 2)
+					m[p[0]] = p[1]
+				}
+			}
+			st.tags[k[0]] = m
+		}
 	}
 	if parts[2] != "" {
 		for _, e := range strings.Split(parts[2], ";") {
 			var req int
-			var rest string
 			if i := strings.IndexByte(e, ':'); i > 0 {
 				fmt.Sscanf(e[:i], "%d", &req)
-				rest = e[i+1:]
+				st.pending[req] = e[i+1:]
 			}
-			st.pending[req] = rest
 		}
 	}
 	return st
 }
 
 func (st c40State2) String() string {
+	var incs []string
+	for k, m := range st.tags {
+		var kvs []string
+		for a, b := range m {
+			kvs = append(kvs, a+"="+b)
+		}
+		sort.Strings(kvs)
+		incs = append(incs, k+"{"+strings.Join(kvs, ",")+"}")
+	}
+	sort.Strings(incs)
 	var ps []string
 	for r, v := range st.pending {
 		ps = append(ps, fmt.Sprintf("%d:%s", r, v))
 	}
 	sort.Strings(ps)
-	return st.c40State.String() + "\x01" + fmt.Sprintf("%d,%d,%d", st.gen[0], st.gen[1], st.gen[2]) + "\x01" + strings.Join(ps, ";")
+	return fmt.Sprintf("%d,%d,%d,%d,%d,%d", st.cur[0], st.cur[1], st.cur[2], st.next[0], st.next[1], st.next[2]) + "\x01" + strings.Join(incs, "|") + "\x01" + strings.Join(ps, ";")
 }
 
-func (st *c40State2) touch(w int) {
-	if !st.exists[w] {
-		st.exists[w] = true
-		st.gen[w]++
-		st.tags[w] = map[string]string{}
+// touch is FindOrCreateWorld: returns the registered incarnation, creating one if there is none.
+func (st *c40State2) touch(w int) int {
+	if st.cur[w] == 0 {
+		st.next[w]++
+		st.cur[w] = st.next[w]
+		st.tags[fmt.Sprintf("%d.%d", w, st.cur[w])] = map[string]string{}
 	}
+	return st.cur[w]
+}
+
+func (st *c40State2) lookup(w, g, feat int, key string) string {
+	k := fmt.Sprintf("f%d.%s", feat, key)
+	if v, ok := st.tags[fmt.Sprintf("%d.%d", w, g)][k]; ok {
+		if v == "\x00" {
+			return ""
+		}
+		return v
+	}
+	return c40BaseTags[k]
+}
+
+// applyTo applies a blind change to incarnation (w, g); false if it must fail.
+func (st *c40State2) applyTo(w, g int, in c40In) bool {
+	view := c40State{}
+	for i := range view.tags {
+		view.tags[i] = map[string]string{}
+	}
+	in.World = 0
+	view.tags[0] = st.tags[fmt.Sprintf("%d.%d", w, g)]
+	if view.tags[0] == nil {
+		view.tags[0] = map[string]string{}
+	}
+	scratch := c40State{}
+	for i := range scratch.tags {
+		scratch.tags[i] = map[string]string{}
+	}
+	if !c40ApplyChange(&scratch, in) {
+		return false
+	}
+	c40ApplyChange(&view, in)
+	st.tags[fmt.Sprintf("%d.%d", w, g)] = view.tags[0]
+	return true
 }
 
 func c40Step2(state, input, output interface{}) (bool, interface{}) {
 	st := c40Parse2(state.(string))
 	in2 := input.(c40In2)
 	in := in2.In
-	switch in2.Phase {
-	case "":
-		switch in.Kind {
-		case "list":
-			out := output.(c40Out)
-			var idx []string
-			for i, e := range st.exists {
-				if e {
-					idx = append(idx, fmt.Sprint(i))
-				}
-			}
-			if len(idx) == 0 {
-				idx = []string{"0"}
-			}
-			if !in.Final {
-				return !out.Err && !strings.Contains(out.Worlds, "?"), state
-			}
-			return !out.Err && out.Worlds == strings.Join(idx, ","), state
-		case "delete":
-			out := output.(c40Out)
-			if st.exists[in.World] {
-				st.exists[in.World] = false
-				st.tags[in.World] = map[string]string{}
-			}
-			return !out.Err, st.String()
-		case "read":
-			out := output.(c40Out)
-			st.touch(in.World)
-			return !out.Err && out.Val == c40Lookup(&st.c40State, in.World, in.Feat, in.Key), st.String()
-		}
-		panic("unexpected single-point op " + in.Kind)
-	case "aw-delete":
-		// add-world-with-change, as the unchanged function does it, in three
-		// steps under the read lock: (1) the evaluation makes its own world
-		// visible and deletes the target world ...
-		if _, dup := st.pending[in2.Req]; dup {
-			return false, state
-		}
-		st.touch(in.World)
-		if st.exists[in.Target] {
-			st.exists[in.Target] = false
-			st.tags[in.Target] = map[string]string{}
-		}
-		st.pending[in2.Req] = "d"
-		return true, st.String()
-	case "aw-create":
-		// ... (2) finds or creates the target world ...
-		if st.pending[in2.Req] != "d" {
-			return false, state
-		}
-		st.touch(in.Target)
-		st.pending[in2.Req] = fmt.Sprintf("%d,%d,", in.Target, st.gen[in.Target])
-		return true, st.String()
-	case "aw-apply":
-		// ... (3) applies the change to the world object it got
-		out := output.(c40Out)
+	held := func() (step string, w, g int, val string, ok bool) {
 		p, ok := st.pending[in2.Req]
-		if !ok || p == "d" {
+		if !ok {
+			return "", 0, 0, "", false
+		}
+		f := strings.SplitN(p, ",", 4)
+		fmt.Sscanf(f[1], "%d", &w)
+		fmt.Sscanf(f[2], "%d", &g)
+		return f[0], w, g, f[3], true
+	}
+	hold := func(step string, w, g int, val string) {
+		st.pending[in2.Req] = fmt.Sprintf("%s,%d,%d,%s", step, w, g, val)
+	}
+	switch in2.Phase {
+	case "list":
+		out := output.(c40Out)
+		var idx []string
+		for i, g := range st.cur {
+			if g != 0 {
+				idx = append(idx, fmt.Sprint(i))
+			}
+		}
+		if len(idx) == 0 {
+			idx = []string{"0"}
+		}
+		if !in.Final {
+			return !out.Err && !strings.Contains(out.Worlds, "?"), state
+		}
+		return !out.Err && out.Worlds == strings.Join(idx, ","), state
+	case "delete":
+		out := output.(c40Out)
+		st.cur[in.World] = 0
+		return !out.Err, st.String()
+	case "begin":
+		if _, _, _, _, dup := held(); dup {
+			return false, state
+		}
+		hold("begun", in.World, st.touch(in.World), "")
+		return true, st.String()
+	case "read":
+		out := output.(c40Out)
+		step, w, g, _, ok := held()
+		if !ok || step != "begun" {
 			return false, state
 		}
 		delete(st.pending, in2.Req)
-		var w, g int
-		fmt.Sscanf(p, "%d,%d,", &w, &g)
-		part := in.Parts[0]
-		part.World = w
-		scratch := c40State{}
-		for i := range scratch.tags {
-			scratch.tags[i] = map[string]string{}
-		}
-		okc := c40ApplyChange(&scratch, part)
-		if out.Err == okc {
-			return false, state
-		}
-		if okc && st.exists[w] && st.gen[w] == g {
-			c40ApplyChange(&st.c40State, part)
-		}
-		return true, st.String()
+		return !out.Err && out.Val == st.lookup(w, g, in.Feat, in.Key), st.String()
 	case "eval":
-		if _, dup := st.pending[in2.Req]; dup {
+		step, w, g, _, ok := held()
+		if !ok || step != "begun" {
 			return false, state
 		}
-		st.touch(in.World)
-		val := ""
-		if in.Kind == "copy" {
-			val = c40Lookup(&st.c40State, in.World, in.Feat, in.Val)
-		}
-		st.pending[in2.Req] = fmt.Sprintf("%d,%d,%s", in.World, st.gen[in.World], val)
+		hold("evaluated", w, g, st.lookup(w, g, in.Feat, in.Val))
 		return true, st.String()
 	case "apply":
 		out := output.(c40Out)
-		p, ok := st.pending[in2.Req]
-		if !ok {
-			return false, state // apply before eval
-		}
-		delete(st.pending, in2.Req)
-		f := strings.SplitN(p, ",", 3)
-		var w, g int
-		fmt.Sscanf(f[0], "%d", &w)
-		fmt.Sscanf(f[1], "%d", &g)
-		// success does not depend on the world's state here (features come
-		// from the base): decide on a scratch copy
-		scratch := c40State{}
-		for i := range scratch.tags {
-			scratch.tags[i] = map[string]string{}
-		}
-		applied := in
-		if in.Kind == "copy" {
-			applied = c40In{Kind: "addtag", World: in.World, Feat: in.Feat, Key: in.Key, Val: f[2]}
-		}
-		okc := c40ApplyChange(&scratch, applied)
-		if out.Err == okc {
+		step, w, g, val, ok := held()
+		if !ok || (in.Kind == "copy") != (step == "evaluated") || (in.Kind != "copy" && step != "begun") {
 			return false, state
 		}
-		if okc && st.exists[w] && st.gen[w] == g {
-			c40ApplyChange(&st.c40State, applied)
+		delete(st.pending, in2.Req)
+		applied := in
+		if in.Kind == "copy" {
+			applied = c40In{Kind: "addtag", Feat: in.Feat, Key: in.Key, Val: val}
 		}
+		return out.Err == !st.applyTo(w, g, applied), st.String()
+	case "aw-delete":
+		step, w, g, _, ok := held()
+		if !ok || step != "begun" {
+			return false, state
+		}
+		st.cur[in.Target] = 0
+		hold("aw-deleted", w, g, "")
 		return true, st.String()
+	case "aw-create":
+		step, _, _, _, ok := held()
+		if !ok || step != "aw-deleted" {
+			return false, state
+		}
+		hold("aw-created", in.Target, st.touch(in.Target), "")
+		return true, st.String()
+	case "aw-apply":
+		out := output.(c40Out)
+		step, w, g, _, ok := held()
+		if !ok || step != "aw-created" {
+			return false, state
+		}
+		delete(st.pending, in2.Req)
+		return out.Err == !st.applyTo(w, g, in.Parts[0]), st.String()
 	}
-	panic("bad phase")
+	panic("bad phase " + in2.Phase)
 }
 
 var c40Model2 = porcupine.Model{
@@ -790,16 +833,27 @@ func runC40(rc *RC) {
 		var h2 []porcupine.Operation
 		for i, op := range history {
 			in := op.Input.(c40In)
+			step := func(phase string, out interface{}) {
+				h2 = append(h2, porcupine.Operation{ClientId: op.ClientId, Input: c40In2{Phase: phase, Req: i, In: in}, Output: out, Call: op.Call, Return: op.Return})
+			}
 			switch in.Kind {
-			case "list", "delete", "read":
-				h2 = append(h2, porcupine.Operation{ClientId: op.ClientId, Input: c40In2{In: in}, Output: op.Output, Call: op.Call, Return: op.Return})
+			case "list", "delete":
+				step(in.Kind, op.Output)
+			case "read":
+				step("begin", c40Out{})
+				step("read", op.Output)
 			case "addworld":
-				h2 = append(h2, porcupine.Operation{ClientId: op.ClientId, Input: c40In2{Phase: "aw-delete", Req: i, In: in}, Output: c40Out{}, Call: op.Call, Return: op.Return})
-				h2 = append(h2, porcupine.Operation{ClientId: op.ClientId, Input: c40In2{Phase: "aw-create", Req: i, In: in}, Output: c40Out{}, Call: op.Call, Return: op.Return})
-				h2 = append(h2, porcupine.Operation{ClientId: op.ClientId, Input: c40In2{Phase: "aw-apply", Req: i, In: in}, Output: op.Output, Call: op.Call, Return: op.Return})
+				step("begin", c40Out{})
+				step("aw-delete", c40Out{})
+				step("aw-create", c40Out{})
+				step("aw-apply", op.Output)
+			case "copy":
+				step("begin", c40Out{})
+				step("eval", c40Out{})
+				step("apply", op.Output)
 			default:
-				h2 = append(h2, porcupine.Operation{ClientId: op.ClientId, Input: c40In2{Phase: "eval", Req: i, In: in}, Output: c40Out{}, Call: op.Call, Return: op.Return})
-				h2 = append(h2, porcupine.Operation{ClientId: op.ClientId, Input: c40In2{Phase: "apply", Req: i, In: in}, Output: op.Output, Call: op.Call, Return: op.Return})
+				step("begin", c40Out{})
+				step("apply", op.Output)
 			}
 		}
 		switch porcupine.CheckOperationsTimeout(c40Model2, h2, 30*time.Second) {
